@@ -162,7 +162,10 @@ fn float_units_2p40(bits: u32) -> i128 {
 struct Chrony {
     world: Arc<Mutex<World>>,
     step: Arc<Mutex<Option<Step>>>,
-    grace: Arc<Mutex<bool>>,
+    /// Monotonic instant at which the poller last received an answer (maintained by the harness as
+    /// the real ClockErrorBoundPoller would); the grace flag is computed from it when asked.
+    last_good: Arc<Mutex<i128>>,
+    grace_asked_at: Arc<Mutex<Vec<i128>>>,
     rng: Rng,
     /// What chronyd did this iteration: (true time it sampled at, report) for the monitor.
     sampled: Arc<Mutex<Option<(i128, Report, i64)>>>,
@@ -227,6 +230,8 @@ impl ChronyOps for Chrony {
                 let report = Report { ref_id, leap, ref_time_ns: rt - age_ns, correction_bits: off, delay_bits: delay, dispersion_bits: disp, interval_bits: bits_of_f64(16.0) };
                 *self.sampled.lock().unwrap() = Some((w.t, report, self.phc_value));
                 w.advance(reply_latency);
+                // The real poller notes the instant the answer was received.
+                *self.last_good.lock().unwrap() = w.mono_ns();
                 drop(w);
                 Some(tracking_of(&report))
             }
@@ -234,7 +239,10 @@ impl ChronyOps for Chrony {
     }
 
     fn is_within_grace_period(&self) -> bool {
-        *self.grace.lock().unwrap()
+        // As the real poller: elapsed since the last answer, evaluated at the instant of the call.
+        let now = self.world.lock().unwrap().mono_ns();
+        self.grace_asked_at.lock().unwrap().push(now);
+        now - *self.last_good.lock().unwrap() < 5 * NS
     }
 }
 
@@ -247,7 +255,8 @@ struct Sim {
     daemon: Option<Daemon>,
     drift_ppb: u32,
     step: Arc<Mutex<Option<Step>>>,
-    grace: Arc<Mutex<bool>>,
+    last_good: Arc<Mutex<i128>>,
+    grace_asked_at: Arc<Mutex<Vec<i128>>>,
     sampled: Arc<Mutex<Option<(i128, Report, i64)>>>,
     entered: Arc<Mutex<Option<i128>>>,
     phc: Option<PhcInfo>,
@@ -293,6 +302,7 @@ impl Sim {
         self.daemon = Some(Daemon::start(&self.path, self.drift_ppb, true));
         // ClockErrorBoundPoller::default(): the last answer is 5 s in the past.
         self.last_good_mono = self.world.lock().unwrap().mono_ns() - 5 * NS;
+        *self.last_good.lock().unwrap() = self.last_good_mono;
         self.have_sync = false;
         self.last_record = None;
     }
@@ -398,16 +408,13 @@ impl Sim {
         *self.step.lock().unwrap() = Some(step.clone());
         *self.sampled.lock().unwrap() = None;
         *self.entered.lock().unwrap() = None;
-        // The grace flag the real poller would compute when asked (after the failed query).
-        let mono_now = self.world.lock().unwrap().mono_ns();
         let silence = matches!(step, Step::Silence);
-        let asked_at = if silence { mono_now + 3 * NS } else { mono_now };
-        *self.grace.lock().unwrap() = asked_at - self.last_good_mono < 5 * NS;
+        self.grace_asked_at.lock().unwrap().clear();
         let phc_active = match (&self.phc, &step) {
             (Some(p), Step::Answer { ref_id, .. }) => p.refid == *ref_id && p.sysfs_error_bound_path.exists(),
             _ => false,
         };
-        let chrony = Chrony { world: self.world.clone(), step: self.step.clone(), grace: self.grace.clone(), rng: rng.fork(7), sampled: self.sampled.clone(), phc_value: self.phc_value, phc_active, entered: self.entered.clone() };
+        let chrony = Chrony { world: self.world.clone(), step: self.step.clone(), last_good: self.last_good.clone(), grace_asked_at: self.grace_asked_at.clone(), rng: rng.fork(7), sampled: self.sampled.clone(), phc_value: self.phc_value, phc_active, entered: self.entered.clone() };
         {
             let mut w = self.world.lock().unwrap();
             w.keep_log = true;
@@ -443,8 +450,10 @@ impl Sim {
                 violation(violations, a, "C12", "as-of-not-before-request", format!("as_of {} ns: monotonic readings by the poller before the request was issued {:?}; chronyd sampled at monotonic {}", as_of_ns, reads.iter().filter(|e| entered.map_or(false, |t| e.t <= t)).map(|e| e.value).collect::<Vec<_>>(), sampled.map(|(t, _, _)| t - t_boot).unwrap_or(-1)), json!({"history": history}));
             }
         }
-        // ---- C13: the message class follows the model.
-        let grace_flag = *self.grace.lock().unwrap();
+        // ---- C13: the message class follows the model. The poller has to judge the grace period
+        // once the query is over (three timeouts later for a silence), against the last answer.
+        let mono_after = self.world.lock().unwrap().mono_ns();
+        let grace_flag = if silence { mono_after - self.last_good_mono < 5 * NS } else { true };
         let expected_kind = match &step {
             Step::Silence => if grace_flag { "ChronyNotRespondingGracePeriod" } else { "ChronyNotResponding" },
             Step::Answer { ref_id, .. } => match &self.phc {
@@ -477,6 +486,7 @@ impl Sim {
         if !silence {
             // The real poller notes the time an answer was received.
             self.last_good_mono = self.world.lock().unwrap().mono_ns();
+            *self.last_good.lock().unwrap() = self.last_good_mono;
         }
         // ---- through the writer thread
         let before = self.last_record;
@@ -566,7 +576,7 @@ fn one_history(a: &Args, mode: &str, seed: u64, obs: &mut Obs, violations: &mut 
     }
     let mut sim = Sim {
         world: world.clone(), dir: dir.clone(), path: path.clone(), daemon: None, drift_ppb: d_ppb as u32,
-        step: Arc::new(Mutex::new(None)), grace: Arc::new(Mutex::new(false)), sampled: Arc::new(Mutex::new(None)), entered: Arc::new(Mutex::new(None)),
+        step: Arc::new(Mutex::new(None)), last_good: Arc::new(Mutex::new(0)), grace_asked_at: Arc::new(Mutex::new(Vec::new())), sampled: Arc::new(Mutex::new(None)), entered: Arc::new(Mutex::new(None)),
         phc: if with_phc { Some(PhcInfo { refid: phc_refid, sysfs_error_bound_path: phc_path.clone() }) } else { None },
         phc_value: if with_phc { phc_value } else { 0 },
         last_good_mono: 0, client: None, last_record: None, have_sync: false,
